@@ -255,8 +255,25 @@ def main(argv=None):
             # chunk left behind in the process (hidden state the per-run reset does not own) -> replay the whole history
             prelude = [engine.generate(srng.run_seed(verif_seed, prop, tier, j), j, tier) for j in r0.get('chunk_prefix', [])]
             if not prelude or not fails_seq(prelude + [plan]):
-                log(f'HARNESS-ERROR run {idx} violated {key} in the worker but not when its chunk history is re-executed from a pristine process (nondeterminism)')
-                return 2
+                # The oracle failed on real code in the worker, but neither the run nor its whole chunk history reproduces it from
+                # a pristine process: the SUT's answer depends on something the simulator does not own (object addresses, thread
+                # timing inside the SUT, ...). That is still a violation of "a function of the history only"; it is reported
+                # as such, flagged unreproducible, with the full history in the replay file.
+                path = os.path.join(VERIF, 'replays', f'{prop}-s{verif_seed}-{tier}-r{idx}-{key[0]}-{_slug(key[1])}.json')
+                with open(path, 'w') as f:
+                    json.dump({'property': prop, 'verif_seed': verif_seed, 'tier': tier, 'run_index': idx, 'expected': signature(v0),
+                               'detail': v0.get('detail'), 'op_index': v0.get('op_index'), 'trace_digest': r0.get('digest'), 'reproducible': False,
+                               'runs_with_this_signature': len(rs), 'prelude': prelude, 'plan': plan}, f, indent=1, default=str)
+                sig = signature(v0)
+                k = match_known(known, sig)
+                if k is not None:
+                    log(f"KNOWN-FINDING: property={prop} {k.get('what', sig)} (oracle={sig['oracle']} api={sig['api']}; {len(rs)} runs; replay={path})")
+                else:
+                    log(f"violation oracle={sig['oracle']} api={sig['api']} runs={len(rs)} first_run={idx} UNREPRODUCIBLE (observed in the batch, not when the same history is re-executed: the result depends on state outside the simulated history) detail={v0.get('detail')}")
+                    log(f'VIOLATION property={prop} replay={path}')
+                    exit_code = 1
+                reported.append({'signature': sig, 'runs': len(rs), 'replay': path, 'known': k is not None, 'minimised_ops': None, 'reproducible': False})
+                continue
             log(f'note: violation {key} of run {idx} needs state left behind by earlier runs of the same process; minimising the multi-run history ({len(prelude)} earlier runs)')
             if not a.no_shrink:
                 holder = {'ops': prelude}
@@ -282,6 +299,15 @@ def main(argv=None):
         cp = subprocess.run([os.path.join(VERIF, 'check'), prop, '--replay', path], capture_output=True, text=True, timeout=600)
         reproduced = (cp.returncode == 1) and (f'VIOLATION property={prop}' in cp.stdout) and \
                      (f'trace_digest={rr.get("digest")} ' in cp.stdout)
+        sut_nondeterministic = False
+        if not reproduced:
+            # same violation class but another trace (the SUT itself is nondeterministic, e.g. threads inside it), or a flaky one:
+            # accept if the fresh interpreter reports the same (oracle, api) in any of 3 attempts
+            for _ in range(3):
+                if (cp.returncode == 1) and (f"violation oracle={key[0]} api={key[1]} " in cp.stdout):
+                    reproduced = sut_nondeterministic = True
+                    break
+                cp = subprocess.run([os.path.join(VERIF, 'check'), prop, '--replay', path], capture_output=True, text=True, timeout=600)
         sig = signature(vmin)
         k = match_known(known, sig)
         nops = len(plan.get('ops', [])) + sum(len(p.get('ops', [])) for p in prelude)
@@ -291,7 +317,7 @@ def main(argv=None):
         if k is not None:
             log(f"KNOWN-FINDING: property={prop} {k.get('what', sig)} (oracle={sig['oracle']} api={sig['api']}; {len(rs)} runs; replay={path})")
         else:
-            log(f"violation oracle={sig['oracle']} api={sig['api']} runs={len(rs)} first_run={idx} minimised_ops={nops} detail={vmin.get('detail')}")
+            log(f"violation oracle={sig['oracle']} api={sig['api']} runs={len(rs)} first_run={idx} minimised_ops={nops}{' SUT-NONDETERMINISTIC (the replay violates the same oracle with a different trace)' if sut_nondeterministic else ''} detail={vmin.get('detail')}")
             log(f'VIOLATION property={prop} replay={path}')
             exit_code = 1
         reported.append({'signature': sig, 'runs': len(rs), 'replay': path, 'known': k is not None, 'minimised_ops': nops})
